@@ -22,9 +22,9 @@ func init() {
 		Level: "exploration",
 		Cases: func(t string) int {
 			if t == "thorough" {
-				return 12000
+				return 24000
 			}
-			return 800
+			return 2400
 		},
 		Batch: func(t string) int { return 40 },
 		Floors: []string{"files_validated", "stream_checks", "mode_generic_writer", "mode_writer_any", "mode_write_rowgroup_buffer", "mode_write_rowgroup_file", "mode_sorting_writer", "mode_column_writers", "mode_reset_reuse", "mode_concurrent_rowgroups",
